@@ -56,7 +56,7 @@ def run(c):
     nch = 6 if tier == "quick" else 16
     chunks = [seeds[i::nch] for i in range(nch)]
     long_seeds = [42] if tier == "quick" else [0, 42, 2 ** 31 - 1, rng.randrange(2 ** 30, 2 ** 31)]
-    nlong = 1500 if tier == "quick" else 6000
+    nlong = 1500 if tier == "quick" else 3000
 
     def job(args):
         i, ss, nd = args
